@@ -139,9 +139,12 @@ CLAIMED['C16'] = (
     'discharged for all inputs satisfying the stated preconditions; preconditions no caller establishes are known findings. '
     'Synthetic errors: the per-session failure counter, check_for_synthetic_http_error / _manifest_error and '
     'calculate_injected_error_segments are proved to fire exactly for the addressed segment / update / time window with the asked '
-    'code, failureCount times, then serve once and clear the counter; the media handlers map index refusals to 404. Bounded '
+    'code, failureCount times, then serve once and clear the counter; the media handlers map index refusals to 404. Box headers: '
+    'Mp4Atom.parse ends the scan (None) on a truncated 64-bit size, a zero 64-bit size or a non-ASCII type instead of raising or looping. '
+    'UTC timing method: the option parser raises ValueError (400) for every name outside the set TimeSourceContext handles, and the '
+    'context does not raise for any name of that set (the set is read from the source on every run). Bounded '
     '(labelled): DRM option names are refused or accepted without assertion.',
-    'Trusted: pyvc encoding. Router, uploads, corrupt MP4 input, error injection counters and all Flask handlers are not covered; '
+    'Trusted: pyvc encoding. Router, uploads, corrupt MP4 payloads beyond the box header, and the Flask handlers not named above are not covered; '
     'preconditions such as event interval >= 1 are not established by option parsing (known findings).',
     'contract-based deductive verification: safety and termination obligations of the functions under contract')
 
@@ -215,9 +218,13 @@ CLAIMED['C05'] = (
     'Proof: xmlSafe escapes & < > \" (ampersand first, so its own entities are not escaped again), maps None to the empty string '
     'and accepts non-strings - every character class, an entity-like text and a mixed text are discharged, which covers all inputs '
     'because str.replace with a one-character pattern acts per character. Template table, regenerated from the template files on '
-    'every run: every interpolation of the manifest, patch, DRM, event and segment-list templates passes through a filter that '
-    'produces XML-safe text or is an integer / server-generated token / XML fragment serialised by the server itself.',
-    'Trusted / not covered: Jinja semantics (autoescape off, filters applied as functions), the classification of NUMERIC / FIXED '
+    'every run: every interpolation of the .mpd manifests (rendered without autoescape) passes through a filter that '
+    'produces XML-safe text or is an integer / server-generated token / XML fragment serialised by the server itself; in the *.xml '
+    'fragments (auto-escaped by Flask) nothing is switched off with |safe except two listed fragments, and xmlSafe returns Markup so it is '
+    'not escaped twice there; element-name positions are flagged whatever the escaping. BOUNDED stand-in (not counted as proved): every XML '
+    'template rendered by the real Jinja with each `if` forced (all true / all false / every single flip), loops of 2 and 1 items and '
+    'placeholder values must parse as XML (whitespace-control and tag-balance slips).',
+    'Trusted / not covered: Jinja semantics (which templates are auto-escaped, filters applied as functions), the classification of NUMERIC / FIXED '
     'expressions in contracts/xml_scan.py (read from the code, not proved), the formatting filters\' alphabets (ISO text: C19). NOT '
     'covered: the structural MPD rules (required attributes, lexical validity, unique ids, non-empty AdaptationSets, URL template '
     'identifiers). Known finding: a custom-attribute element name is rendered verbatim. The template table is a syntactic obligation.',
